@@ -1222,6 +1222,146 @@ def inline_new_constants(tree: ast.Module, m: str) -> T.List[str]:
     return sorted(known)
 
 
+def expand_kwargs_splats(tree: ast.Module, unchanged: T.Optional[T.Set[int]] = None) -> int:
+    """`f(a, **opts)` where `opts` is a local bound once to a dict display with constant string keys and never mutated or
+    passed on otherwise: the call gets the explicit keywords (values are plain names / attributes / constants, so moving
+    their evaluation to the call changes nothing).  `dict(k=v)` calls are displays already (canonical_dict_calls)."""
+    import copy
+    count = 0
+    for fd in [n for n in ast.walk(tree) if isinstance(n, (ast.FunctionDef, ast.AsyncFunctionDef))]:
+        if unchanged and id(fd) in unchanged:
+            continue
+        stores: T.Dict[str, int] = {}
+        for n in ast.walk(fd):
+            if isinstance(n, ast.Name) and isinstance(n.ctx, (ast.Store, ast.Del)):
+                stores[n.id] = stores.get(n.id, 0) + 1
+        tables: T.Dict[str, ast.Dict] = {}
+        for n in ast.walk(fd):
+            tg = val = None
+            if isinstance(n, ast.Assign) and len(n.targets) == 1:
+                tg, val = n.targets[0], n.value
+            elif isinstance(n, ast.AnnAssign) and n.value is not None:
+                tg, val = n.target, n.value
+            if isinstance(tg, ast.Name) and isinstance(val, ast.Dict) and val.keys and stores.get(tg.id) == 1 \
+                    and all(isinstance(k, ast.Constant) and isinstance(k.value, str) and k.value.isidentifier() for k in val.keys) \
+                    and all(isinstance(v, (ast.Name, ast.Attribute, ast.Constant)) for v in val.values):
+                tables[tg.id] = val
+        for name, table in list(tables.items()):
+            uses = [n for n in ast.walk(fd) if isinstance(n, ast.Name) and n.id == name and isinstance(n.ctx, ast.Load)]
+            splats = [(c, k) for c in ast.walk(fd) if isinstance(c, ast.Call) for k in c.keywords if k.arg is None and isinstance(k.value, ast.Name) and k.value.id == name]
+            # names read by the values must not be rebound between the table and the calls: require single assignment or parameters
+            params = {a.arg for a in fd.args.posonlyargs + fd.args.args + fd.args.kwonlyargs}
+            stable = all((not isinstance(v, ast.Name)) or v.id in params or stores.get(v.id, 0) <= 1 for v in table.values)
+            if not splats or len(splats) != len(uses) or not stable:
+                continue
+            for c, k in splats:
+                i = c.keywords.index(k)
+                c.keywords[i:i + 1] = [ast.keyword(arg=key.value, value=copy.deepcopy(v)) for key, v in zip(table.keys, table.values)]
+                count += 1
+    if count:
+        ast.fix_missing_locations(tree)
+    return count
+
+
+def expand_accumulated_replace(tree: ast.Module, unchanged: T.Optional[T.Set[int]] = None) -> int:
+    """`opts = {}` ... `if c: opts['k'] = v` ... `[if opts:] x = x._replace(**opts)`  ==  `if c: x = x._replace(k=v)` at each
+    store (a namedtuple's _replace is pure and x is not read in between): the per-option shape the rules know."""
+    import copy
+    count = 0
+    for fd in [n for n in ast.walk(tree) if isinstance(n, (ast.FunctionDef, ast.AsyncFunctionDef))]:
+        if unchanged and id(fd) in unchanged:
+            continue
+        body = fd.body
+        for i, st in enumerate(body):
+            tg = val = None
+            if isinstance(st, ast.Assign) and len(st.targets) == 1:
+                tg, val = st.targets[0], st.value
+            elif isinstance(st, ast.AnnAssign) and st.value is not None:
+                tg, val = st.target, st.value
+            if not (isinstance(tg, ast.Name) and isinstance(val, ast.Dict) and not val.keys):
+                continue
+            d = tg.id
+            # the final statement: x = x._replace(**d), possibly under `if d:`
+            fin = None
+            for j in range(i + 1, len(body)):
+                cand = body[j]
+                inner = cand.body[0] if isinstance(cand, ast.If) and isinstance(cand.test, ast.Name) and cand.test.id == d and len(cand.body) == 1 and not cand.orelse else cand
+                if isinstance(inner, ast.Assign) and len(inner.targets) == 1 and isinstance(inner.targets[0], ast.Name) and isinstance(inner.value, ast.Call) \
+                        and isinstance(inner.value.func, ast.Attribute) and inner.value.func.attr == "_replace" and isinstance(inner.value.func.value, ast.Name) \
+                        and inner.value.func.value.id == inner.targets[0].id and not inner.value.args and len(inner.value.keywords) == 1 \
+                        and inner.value.keywords[0].arg is None and isinstance(inner.value.keywords[0].value, ast.Name) and inner.value.keywords[0].value.id == d:
+                    fin = (j, inner.targets[0].id)
+                    break
+            if fin is None:
+                continue
+            j, x = fin
+            between = body[i + 1:j]
+            stores = [n for b in between for n in ast.walk(b) if isinstance(n, ast.Assign) and len(n.targets) == 1 and isinstance(n.targets[0], ast.Subscript)
+                      and isinstance(n.targets[0].value, ast.Name) and n.targets[0].value.id == d and isinstance(n.targets[0].slice, ast.Constant) and isinstance(n.targets[0].slice.value, str)]
+            other_uses = [n for b in between for n in ast.walk(b) if isinstance(n, ast.Name) and n.id == d] 
+            reads_x = [n for b in between for n in ast.walk(b) if isinstance(n, ast.Name) and n.id == x]
+            uses_after = [n for b in body[j + 1:] for n in ast.walk(b) if isinstance(n, ast.Name) and n.id == d]
+            if not stores or len(other_uses) != len(stores) or reads_x or uses_after:
+                continue
+            for n in stores:
+                key = n.targets[0].slice.value
+                n.targets = [ast.Name(id=x, ctx=ast.Store())]
+                n.value = ast.Call(func=ast.Attribute(value=ast.Name(id=x, ctx=ast.Load()), attr="_replace", ctx=ast.Load()), args=[], keywords=[ast.keyword(arg=key, value=n.value)])
+            del body[j]
+            del body[i]
+            ast.fix_missing_locations(fd)
+            count += 1
+            break
+    return count
+
+
+def expand_bool_returns(tree: ast.Module, unchanged: T.Optional[T.Set[int]] = None) -> int:
+    """In a changed function annotated `-> bool`, `return <condition>` (a comparison, and/or/not, or a flag local defined
+    as one) becomes `if <condition>: return True` / `return False`: the exits the path-condition rules look for."""
+    count = 0
+
+    def is_cond(e: ast.AST, fd: ast.AST, depth: int = 0) -> bool:
+        if isinstance(e, (ast.Compare,)):
+            return True
+        if isinstance(e, ast.UnaryOp) and isinstance(e.op, ast.Not):
+            return True
+        if isinstance(e, ast.BoolOp):
+            return all(is_cond(v, fd, depth) or isinstance(v, ast.Name) for v in e.values)
+        if isinstance(e, ast.Name) and depth < 2:
+            defs = [n.value for n in ast.walk(fd) if isinstance(n, ast.Assign) and len(n.targets) == 1 and isinstance(n.targets[0], ast.Name) and n.targets[0].id == e.id]
+            return len(defs) == 1 and is_cond(defs[0], fd, depth + 1)
+        return False
+
+    def visit_block(stmts: T.List[ast.stmt], fd: ast.AST) -> None:
+        nonlocal count
+        i = 0
+        while i < len(stmts):
+            st = stmts[i]
+            for fld in ("body", "orelse", "finalbody"):
+                sub = getattr(st, fld, None)
+                if isinstance(sub, list) and sub and isinstance(sub[0], ast.stmt) and not isinstance(st, (ast.FunctionDef, ast.AsyncFunctionDef, ast.ClassDef)):
+                    visit_block(sub, fd)
+            for h in getattr(st, "handlers", []) or []:
+                visit_block(h.body, fd)
+            if isinstance(st, ast.Return) and st.value is not None and not isinstance(st.value, ast.Constant) and is_cond(st.value, fd):
+                new_if = ast.If(test=st.value, body=[ast.Return(value=ast.Constant(value=True))], orelse=[])
+                ast.copy_location(new_if, st)
+                tail = ast.Return(value=ast.Constant(value=False))
+                ast.copy_location(tail, st)
+                stmts[i:i + 1] = [ast.fix_missing_locations(new_if), ast.fix_missing_locations(tail)]
+                count += 1
+                i += 2
+                continue
+            i += 1
+    for fd in [n for n in ast.walk(tree) if isinstance(n, (ast.FunctionDef, ast.AsyncFunctionDef))]:
+        if unchanged and id(fd) in unchanged:
+            continue
+        if fd.returns is None or ast.unparse(fd.returns) != "bool":
+            continue
+        visit_block(fd.body, fd)
+    return count
+
+
 def unroll_literal_loops(tree: ast.Module, unchanged: T.Optional[T.Set[int]] = None) -> int:
     """`for x in ("a", "b"): ...` over a short literal of constants, in a function that differs from the pinned one:
     a first-match loop (`if test(x): ...; break`, optional `else`) becomes an if/elif chain, a loop without break/continue
@@ -1502,6 +1642,9 @@ def normalise_program(trees: T.Dict[str, ast.Module]) -> T.Dict[str, int]:
     LAST_RUN["local_renames_undone"] = undo_local_renames(trees)
     n_disp = 0
     n_unrolled = 0
+    n_splats = 0
+    n_boolret = 0
+    n_accrep = 0
     for m, t in trees.items():
         known = baseline().get(m)
         if known:
@@ -1510,8 +1653,14 @@ def normalise_program(trees: T.Dict[str, ast.Module]) -> T.Dict[str, int]:
             same_disp = same | {id(fd) for q, fd in _qualnames(t).items() if q in baseline_ref_alias().get(m, [])}
             n_disp += expand_table_dispatch(t, same_disp)
             n_unrolled += unroll_literal_loops(t, same)
+            n_splats += expand_kwargs_splats(t, same)
+            n_boolret += expand_bool_returns(t, same)
+            n_accrep += expand_accumulated_replace(t, same)
     LAST_RUN["dispatch_expanded"] = n_disp
     LAST_RUN["literal_loops_unrolled"] = n_unrolled
+    LAST_RUN["kwargs_splats_expanded"] = n_splats
+    LAST_RUN["bool_returns_expanded"] = n_boolret
+    LAST_RUN["accumulated_replace_expanded"] = n_accrep
     inliners: T.Dict[str, Inliner] = {}
     for m, tree in trees.items():
         known = dict(baseline().get(m, {}))
